@@ -672,6 +672,12 @@ func (r verifSBPlainReporter) Fatalf(format string, args ...interface{}) { r.t.F
 func (r verifSBPlainReporter) Class(string)                               {}
 func (r verifSBPlainReporter) Excluded(key string)                        { r.t.Logf("KNOWN key=%s (excluded)", key) }
 
+// Known-finding class: CancelPrune(prevRoot, OldRoot) issued by a rollback while pruning is blocked is
+// buffered; the next block committed on prevRoot re-creates the prevRoot|Old waiting-list entry; when
+// the buffer is executed the stale cancel evicts that fresh entry; a later block that re-creates one of
+// the nodes listed in it and is rolled back deletes the node although prevRoot is still live.
+const verifSBKeyStaleCancel = "C09:safety:after-rollback-while-blocked"
+
 // verifSBKnown: the class is listed as a known finding => it is excluded by construction.
 func verifSBKnown(key string) bool {
 	return kit.IsKnown(key)
@@ -705,7 +711,13 @@ type verifSBSim struct {
 	// node hashes of roots touched by a rollback that was issued while pruning was blocked (the
 	// rolled-back root and the root rolled back to): class verifSBKeyBlockedRollback
 	blockedRollbackHashes map[string]struct{}
-	lastRolled        *verifSBRolled
+	// class verifSBKeyStaleCancel: roots that were rolled back to while pruning was blocked and whose
+	// buffered CancelPrune(root, OldRoot) may still be pending, and the node hashes that the first
+	// block committed on top of such a root removed from it (= the re-created root|Old entry that the
+	// stale cancel evicts; only these nodes lose their protection)
+	pendingStaleCancel map[string]bool
+	exposedHashes      map[string]struct{}
+	lastRolled         *verifSBRolled
 
 	nRollback, nPruneBlocked, nDataTrieRemoval, nFinalizeAfter int
 	rollbackWhileBlocked                                       bool
@@ -784,12 +796,33 @@ func (s *verifSBSim) checkLive(where string) {
 		r := live[k]
 		read, err := verifSBReadRoot(s.fx.MainDB, s.fx.Marsh, s.fx.Hasher, r.root)
 		if err != nil {
-			s.rep.Violation("C09:safety:live-root-unreadable", "after %s: live root %x (%s) is not readable any more: %v; history: %s", where, r.root[:4], s.describe(r.root), err, s.history())
+			s.rep.Violation(s.safetyKey(r, "C09:safety:live-root-unreadable"), "after %s: live root %x (%s) is not readable any more: %v; history: %s", where, r.root[:4], s.describe(r.root), err, s.history())
+			continue
 		}
 		if d := verifSBDiff(r.model, read.State); d != "" {
 			s.rep.Violation("C09:safety:live-root-content", "after %s: live root %x reads differently: %s; history: %s", where, r.root[:4], d, s.history())
 		}
 	}
+}
+
+// safetyKey classifies a live root that lost nodes: if every node of r that is missing from the
+// database is one that a stale buffered CancelPrune(prev, OldRoot) can have exposed (see
+// verifSBKeyStaleCancel) the violation belongs to that class, otherwise to defaultKey.
+func (s *verifSBSim) safetyKey(r *verifSBRoot, defaultKey string) string {
+	missing := 0
+	for h := range r.hashes {
+		if _, err := s.fx.MainDB.Get([]byte(h)); err == nil {
+			continue
+		}
+		missing++
+		if _, ok := s.exposedHashes[h]; !ok {
+			return defaultKey
+		}
+	}
+	if missing == 0 {
+		return defaultKey
+	}
+	return verifSBKeyStaleCancel
 }
 
 func (s *verifSBSim) describe(root []byte) string {
@@ -898,6 +931,7 @@ func (s *verifSBSim) updateStateStorage(rootHash, prevRootHash []byte) (pruned b
 	}
 	adb.CancelPrune(verifSBCopy(rootHashToBePruned), data.NewRoot)
 	adb.PruneTrie(verifSBCopy(rootHashToBePruned), data.OldRoot)
+	s.afterPruneTrie()
 	return true
 }
 
@@ -910,6 +944,7 @@ func (s *verifSBSim) pruneStateOnRollback(rootHash, prevRootHash []byte) (pruned
 	if s.blocked() {
 		s.nPruneBlocked++
 		s.rollbackWhileBlocked = true
+		s.pendingStaleCancel[string(prevRootHash)] = true
 		s.rep.Class("prune-new-while-blocked")
 		for _, r := range [][]byte{rootHash, prevRootHash} {
 			for h := range s.known[string(r)].hashes {
@@ -921,6 +956,7 @@ func (s *verifSBSim) pruneStateOnRollback(rootHash, prevRootHash []byte) (pruned
 	}
 	adb.CancelPrune(verifSBCopy(prevRootHash), data.OldRoot)
 	adb.PruneTrie(verifSBCopy(rootHash), data.NewRoot)
+	s.afterPruneTrie()
 	return true
 }
 
@@ -952,15 +988,35 @@ func (s *verifSBSim) execBlock(blk verifSBBlock, what string) {
 		}
 	}
 	r := s.record(root)
+	if len(s.chain) > 0 {
+		// first block on top of a root that was rolled back to while blocked: the nodes it removes from that
+		// root form the re-created root|Old entry, which the stale buffered cancel will evict
+		if prev := s.chain[len(s.chain)-1]; !bytes.Equal(prev.root, root) && s.pendingStaleCancel[string(prev.root)] {
+			delete(s.pendingStaleCancel, string(prev.root))
+			for h := range prev.hashes {
+				if _, ok := r.hashes[h]; !ok {
+					s.exposedHashes[h] = struct{}{}
+				}
+			}
+		}
+	}
 	s.chain = append(s.chain, r)
 	s.blocks = append(s.blocks, blk)
 	s.logf("%s %x: %v", what, root[:2], blk)
 }
 
+// afterPruneTrie: a PruneTrie call made while pruning is not blocked has executed every buffered
+// request, so no stale cancel is pending any more.
+func (s *verifSBSim) afterPruneTrie() {
+	if !s.asyncBlocking && !s.blocked() {
+		s.pendingStaleCancel = map[string]bool{}
+	}
+}
+
 func verifSBNewSim(rep verifSBReporter, fx *verifSBFixture, g *verifSBGen, qsize int, checkCompleteness bool) *verifSBSim {
 	s := &verifSBSim{rep: rep, fx: fx, g: g, queue: queue.NewSliceQueue(uint(qsize)),
 		known: map[string]*verifSBRoot{}, cur: verifSBState{}, checkCompleteness: checkCompleteness,
-		blockedRollbackHashes: map[string]struct{}{}}
+		blockedRollbackHashes: map[string]struct{}{}, pendingStaleCancel: map[string]bool{}, exposedHashes: map[string]struct{}{}}
 	s.logf("queue=%d ewl=%d buf=%d", qsize, fx.Cfg.EwlCacheSize, fx.Cfg.PruningBufferLen)
 	return s
 }
@@ -988,7 +1044,7 @@ func (s *verifSBSim) doRollback() {
 		if s.asyncBlocking {
 			s.rep.Fatalf("fixture: rollback: RecreateTrie(%x) failed: %v; history: %s", prevRoot[:4], errRec, s.history())
 		}
-		s.rep.Violation("C09:safety:rollback-recreate-failed", "rollback: RecreateTrie(%x) of the previous block's root failed: %v; history: %s", prevRoot[:4], errRec, s.history())
+		s.rep.Violation(s.safetyKey(s.chain[last-1], "C09:safety:rollback-recreate-failed"), "rollback: RecreateTrie(%x) of the previous block's root failed: %v; history: %s", prevRoot[:4], errRec, s.history())
 		return
 	}
 	s.lastRolled = &verifSBRolled{prevRoot: prevRoot, blk: s.blocks[last]}
